@@ -101,7 +101,7 @@ spec_str(const JobSpec &s)
                  "%s-%u/%s %s %s c[%u+%u] h[%u+%u] iv%u(k%u) aiv%u aad%u tag%u %s%s seed=%llx key=%llx",
                  cipher_name(s.cipher), s.key_len * 8, hash_name(s.hash), s.dir == IMB_DIR_ENCRYPT ? "enc" : "dec",
                  s.order == IMB_ORDER_CIPHER_HASH ? "C>H" : "H>C", s.c_off, s.c_len, s.h_off, s.h_len, s.iv_len,
-                 s.iv_kind, s.aiv_len, s.aad_len, s.tag_len, s.inplace ? "inplace" : "oop",
+                 s.iv_kind, s.aiv_len, s.aad_len, s.tag_len, s.inplace ? (s.minimal ? "inplace,minimal-ptrs" : "inplace") : (s.minimal ? "oop,minimal-ptrs" : "oop"),
                  s.viol ? (" VIOL=" + std::to_string(s.viol) + (s.viol2 ? "+" + std::to_string(s.viol2) : "")).c_str()
                         : "",
                  (unsigned long long) s.seed, (unsigned long long) s.key_seed);
@@ -144,7 +144,7 @@ spec_to_json(JW &w, const JobSpec &s)
         w.end_arr();
         w.num("mis0", s.mis[0]).num("mis1", s.mis[1]);
         w.unum("seed", s.seed).unum("key_seed", s.key_seed);
-        w.num("viol", s.viol).num("viol2", s.viol2).num("pon_pli", s.pon_pli);
+        w.num("viol", s.viol).num("viol2", s.viol2).num("pon_pli", s.pon_pli).num("minimal", s.minimal);
         if (!s.cuts.empty()) {
                 w.arr("cuts");
                 for (auto c : s.cuts)
@@ -186,6 +186,7 @@ spec_from_json(const JVal &v)
         s.viol = (uint16_t) v.geti("viol");
         s.viol2 = (uint16_t) v.geti("viol2");
         s.pon_pli = (uint32_t) v.geti("pon_pli");
+        s.minimal = (uint8_t) v.geti("minimal");
         JP c = v.get("cuts");
         if (c)
                 for (auto &x : c->a)
